@@ -2,7 +2,7 @@
 Lock-step simulation, row by row: node-producing rows (their node is created, their edges are
 added, their group is appended), `hard_exit` / `loose_exit` rows and `go_to` rows (edges only).
 -/
-import Rpft.Lemmas.CoreSim
+import Rpft.Lemmas.CoreEdge
 import Rpft.Lemmas.CoreFixed
 set_option linter.unusedSimpArgs false
 set_option linter.unusedVariables false
@@ -121,10 +121,11 @@ theorem rowNode_sim (c : CRow) (hf : nodeRowOk c = true) (edges : List Compile.E
     obtain ⟨⟨⟨hsp, _⟩, _⟩, _⟩ := hf
     refine wp_mono (rowNode_plain _ act s hsp) ?_
     intro n s' ⟨hb, hnk, hnr, hna, hnd⟩
-    refine ⟨hb, (fun r hr => by rw [hnr] at hr; cases hr), fun M ns => .plain (kindOf_action hsp) ⟨hnk, hnr, ?_, ?_⟩⟩
+    refine ⟨hb, (fun r hr => by rw [hnr] at hr; cases hr), fun M ns => .plain (kindOf_action hsp) ⟨hnk, hnr, ?_, ?_, ?_⟩⟩
     · have e2 : act.toList.map (·.2) = (act.map (·.2)).toList := by cases act <;> rfl
       rw [hna, e2, hact]
     · rw [hnd]; rfl
+    · intro e he; cases he
   · simp only [switchRow, Bool.and_eq_true, List.isEmpty_iff] at hf
     obtain ⟨⟨⟨hsw, _⟩, _⟩, _⟩ := hf
     have ht := switch_type hsw
@@ -195,7 +196,7 @@ theorem NodeSim.congrM {M M' : Maps} {ns : Array NodeM} {n : NodeM} {c : CRow} {
     fun p l hl e he => hl e (List.mem_filter.mp he).1
   cases hs with
   | plain hk hp =>
-    exact .plain hk ⟨hp.kind, hp.router, hp.acts, hp.dest.congrM (hlast es (fun e he => he))⟩
+    exact .plain hk ⟨hp.kind, hp.router, hp.acts, hp.dest.congrM (hlast es (fun e he => he)), hp.blank⟩
   | sw r hk hp =>
     refine .sw r hk ⟨hp.kind, hp.acts, hp.router, hp.operand, hp.rname, hp.wait, hp.nrSome, hp.cases, hp.casecat,
       ?_, ?_, ?_⟩
@@ -225,6 +226,34 @@ theorem NodeSim.congrM {M M' : Maps} {ns : Array NodeM} {n : NodeM} {c : CRow} {
     obtain ⟨e, he, het⟩ := buckets_tgt es b hb
     exact h e he k (by rw [het]; exact hk')
 
+theorem RowSim.congrM {M M' : Maps} {ns : Array NodeM} {n : NodeM} {c : CRow} {es : List OutEdge} {ro : Option Nat}
+    (h : ∀ e ∈ es, ∀ k, e.tgt = Target.row k → M'.nOf k = M.nOf k) (hs : RowSim M ns n c es ro) :
+    RowSim M' ns n c es ro := by
+  cases hs with
+  | one hn => exact .one (hn.congrM h)
+  | impl i' n' r hk hp =>
+    have hlast : ∀ (l : List OutEdge), (∀ e ∈ l, e ∈ es) → ∀ k, (l.getLast?).map (·.tgt) = some (Target.row k) →
+        M'.nOf k = M.nOf k := by
+      intro l hl k hk
+      cases hg : l.getLast? with
+      | none => rw [hg] at hk; cases hk
+      | some e =>
+        rw [hg] at hk
+        simp only [Option.map_some, Option.some.injEq] at hk
+        exact h e (hl e (List.mem_of_getLast? hg)) k hk
+    refine .impl i' n' r hk ⟨hp.kind, hp.router, hp.acts, hp.link, hp.rnode, hp.kind',
+      hp.acts', hp.router', hp.operand, hp.rname, hp.wait, hp.noResp, hp.cases, hp.casecat, ?_, ?_, hp.some⟩
+    · refine forall2_imp_mem hp.catd ?_
+      intro cat e he hd
+      refine hd.congrM ?_
+      intro k hk
+      simp only [Option.some.injEq] at hk
+      have : e ∈ es := by
+        unfold testsOf at he
+        exact (List.mem_filter.mp (List.mem_filter.mp he).1).1
+      exact h e this k hk
+    · exact hp.dflt.congrM (hlast _ (fun e he => (List.mem_filter.mp he).1))
+
 theorem isNodeRow_of_ok (c : CRow) (hf : nodeRowOk c = true) : isNodeRow c = true := by
   unfold isNodeRow
   rcases (rowFacts c hf).kind with h | h | h | h | h | h | h | h <;> rw [h] <;> rfl
@@ -241,7 +270,8 @@ theorem Rel.skip {rows : List CRow} {M : Maps} {k : Nat} {s : St} {st : P1} {c :
     (h : Rel rows M false k s st) (hc : rows[k]? = some c) (hn : isNodeRow c = false) :
     Rel rows M false (k + 1) s st := by
   have hg : gOf rows (k + 1) = gOf rows k := by rw [gOf_succ rows k c hc, hn]; simp
-  refine ⟨by rw [hg]; exact h.gsize, by rw [hg]; exact h.root, ?_, h.stack, h.ids, ?_, ?_, ?_, ?_, h.args, ?_, ?_, h.rfresh, h.noR⟩
+  refine ⟨by rw [hg]; exact h.gsize, by rw [hg]; exact h.root, ?_, h.stack, h.ids, ?_, ?_, ?_, ?_, h.args, ?_, ?_, h.rne,
+    fun j hj => h.rnone j (by omega), h.rfresh⟩
   · intro j c' hj hc' hn'
     have : j < k := by
       rcases Nat.lt_succ_iff_lt_or_eq.mp hj with h1 | h1
@@ -279,7 +309,7 @@ theorem Rel.skip {rows : List CRow} {M : Maps} {k : Nat} {s : St} {st : P1} {c :
         · exact ⟨.inl h4, h2, h3⟩
         · subst h4; rw [hc] at h2; injection h2 with h2; subst h2; rw [hn] at h3; cases h3
       · exact absurd h1.1 (by simp)
-    exact h.inj j c1 j' c2 (conv _ _ hv1) (conv _ _ hv2)
+    exact h.disj j c1 j' c2 (conv _ _ hv1) (conv _ _ hv2)
 
 /-- a node-producing row -/
 theorem node_row_sim (rows : List CRow) (outF : List OutEdge) (g : Good rows outF) (M : Maps) (k : Nat) (c : CRow)
@@ -335,7 +365,13 @@ theorem node_row_sim (rows : List CRow) (outF : List OutEdge) (g : Good rows out
       · exact absurd h1.2 hjk
     -- the arena with the pending node
     have r1 : Rel rows M' true k { s with nodes := s.nodes.push n, next := s.next + k1 + k2 } st := by
-      refine ⟨h.gsize, h.root, ?_, h.stack, h.ids, h.idok, h.prev, h.srcok, ?_, h.args, ?_, ?_, ?_, by rw [hMr]; exact h.noR⟩
+      have hrk : M'.rOf k = none := by rw [hMr]; exact h.rnone k (Nat.le_refl _)
+      have hidx : ∀ j0, idxs M' j0 = if j0 = k then [s.nodes.size] else idxs M j0 := by
+        intro j0
+        by_cases hjj : j0 = k
+        · subst hjj; simp [idxs, hMk, hrk]
+        · simp [idxs, hMo j0 hjj, hMr, hjj]
+      refine ⟨h.gsize, h.root, ?_, h.stack, h.ids, h.idok, h.prev, h.srcok, ?_, h.args, ?_, ?_, ?_, ?_, ?_⟩
       · intro j c' hj hc' hn'
         rw [hMo j (by omega), hMr]; exact h.grp j c' hj hc' hn'
       · intro e he t ht
@@ -348,28 +384,39 @@ theorem node_row_sim (rows : List CRow) (outF : List OutEdge) (g : Good rows out
           have : c' = c := by have := hv.2.1; rw [hc] at this; injection this with this; exact this.symm
           subst this
           refine ⟨n, by rw [hMk]; simp, ?_⟩
-          rw [outOf_nil_of_src st j hsrck]
-          exact hnsim _ _
+          rw [outOf_nil_of_src st j hsrck, hrk]
+          exact .one (hnsim _ _)
         · obtain ⟨n', hn', hp'⟩ := h.node j c' (hvalid j c' hv hjk)
           refine ⟨n', by rw [hMo j hjk]; exact getElem?_push_of_some n hn', ?_⟩
-          exact (hp'.ext (NExt.push _ _)).congrM (fun e he t ht => htgk e (hmemout j e he) t ht)
-      · intro j c1 j' c2 hv1 hv2 he
-        by_cases h1 : j = k
-        · by_cases h2 : j' = k
+          rw [hMr]
+          refine (hp'.transfer (NExt.push _ _) ?_).congrM (fun e he t ht => htgk e (hmemout j e he) t ht)
+          intro i hi
+          have := h.idx_lt j c' (hvalid j c' hv hjk) i (by simp only [idxs, List.mem_cons]; exact .inr hi)
+          simp [Array.getElem?_push, Nat.ne_of_lt this]
+      · intro j1 c1 j2 c2 hv1 hv2 x hx1 hx2
+        rw [hidx] at hx1 hx2
+        by_cases h1 : j1 = k
+        · by_cases h2 : j2 = k
           · rw [h1, h2]
           · exfalso
-            obtain ⟨n', hn', _⟩ := h.node j' c2 (hvalid j' c2 hv2 h2)
-            have := (Array.getElem?_eq_some_iff.mp hn').1
-            rw [h1, hMk, hMo j' h2] at he
+            rw [if_pos h1] at hx1; rw [if_neg h2] at hx2
+            have := h.idx_lt j2 c2 (hvalid j2 c2 hv2 h2) x hx2
+            simp only [List.mem_singleton] at hx1
             omega
-        · by_cases h2 : j' = k
+        · by_cases h2 : j2 = k
           · exfalso
-            obtain ⟨n', hn', _⟩ := h.node j c1 (hvalid j c1 hv1 h1)
-            have := (Array.getElem?_eq_some_iff.mp hn').1
-            rw [h2, hMk, hMo j h1] at he
+            rw [if_neg h1] at hx1; rw [if_pos h2] at hx2
+            have := h.idx_lt j1 c1 (hvalid j1 c1 hv1 h1) x hx1
+            simp only [List.mem_singleton] at hx2
             omega
-          · rw [hMo j h1, hMo j' h2] at he
-            exact h.inj j c1 j' c2 (hvalid j c1 hv1 h1) (hvalid j' c2 hv2 h2) he
+          · rw [if_neg h1] at hx1; rw [if_neg h2] at hx2
+            exact h.disj j1 c1 j2 c2 (hvalid j1 c1 hv1 h1) (hvalid j2 c2 hv2 h2) x hx1 hx2
+      · intro j1 i' hi'
+        rw [hMr] at hi'
+        have hjk : j1 ≠ k := by
+          intro e; rw [e, h.rnone k (Nat.le_refl _)] at hi'; cases hi'
+        rw [hMo j1 hjk]; exact h.rne j1 i' hi'
+      · intro j1 hj1; rw [hMr]; exact h.rnone j1 hj1
       · intro i m r hm hr cat hcat
         simp only [Array.getElem?_push] at hm
         split at hm
@@ -381,7 +428,9 @@ theorem node_row_sim (rows : List CRow) (outF : List OutEdge) (g : Good rows out
         (some (Target.row k)) := ⟨n, by rw [hMk]; simp, rfl⟩
     refine wp_mono (edges_sim rows outF g M' true k (.node n.uid) (Target.row k) _ _ st st1 r1 hdk
       (fun t ht => by injection ht with ht; exact .inr ⟨rfl, ht.symm⟩) hst1 hpre1) ?_
-    intro _ s3 ⟨r3, _⟩
+    intro _ s3 ⟨M3, hM3, r3, _⟩
+    have hM3k : M3.nOf k = s.nodes.size := by rw [hM3, hMk]
+    have hM3r : M3.rOf k = none := r3.rnone k (Nat.le_refl _)
     -- the row group is created and appended to the root block
     unfold appendGroup
     wp_simp [wp_setGrp]
@@ -398,13 +447,14 @@ theorem node_row_sim (rows : List CRow) (outF : List OutEdge) (g : Good rows out
     have hfinal : ∀ (rowIds : List (Str × Nat)) (ids : List (Str × Nat)) (names : List (Str × Nat)),
         rowIds = ids.map (fun p => (p.1, gOf rows p.2)) →
         (∀ p ∈ ids, p.2 < k + 1 ∧ ∃ c, rows[p.2]? = some c ∧ isNodeRow c = true) →
-        Rel rows M' false (k + 1)
+        Rel rows M3 false (k + 1)
           { s3 with groups := (s3.groups.push (Grp.row [s.nodes.size] c.row.type)).setIfInBounds 0
                       (Grp.block (List.range' 1 (gOf rows k - 1) ++ [s3.groups.size])),
                     rowIds := rowIds, names := names }
           { st1 with prev := some k, ids := ids } := by
       intro rowIds ids names hids hlt
-      refine ⟨by simp [hsz, hgk], ?_, ?_, r3.stack, hids, hlt, ?_, ?_, ?_, r3.args, ?_, ?_, r3.rfresh, r3.noR⟩
+      refine ⟨by simp [hsz, hgk], ?_, ?_, r3.stack, hids, hlt, ?_, ?_, ?_, r3.args, ?_, ?_, r3.rne,
+        fun j hj => r3.rnone j (by omega), r3.rfresh⟩
       · simp only [Array.getElem?_setIfInBounds, Array.size_push]
         have e1 : gOf rows (k + 1) - 1 = (gOf rows k - 1) + 1 := by omega
         rw [e1, List.range'_concat]
@@ -417,7 +467,7 @@ theorem node_row_sim (rows : List CRow) (outF : List OutEdge) (g : Good rows out
         by_cases hjk : j = k
         · subst hjk
           rw [hc] at hc'; injection hc' with hc'; subst hc'
-          simp [hsz, hMk, r3.noR j]
+          simp [hsz, hM3k, hM3r]
         · have hjl : j < k := by omega
           have := r3.grp j c' hjl hc' hn'
           have hlt' := gOf_lt rows hjl hc' hn'
@@ -447,18 +497,18 @@ theorem node_row_sim (rows : List CRow) (outF : List OutEdge) (g : Good rows out
             · exact ⟨.inl h4, h2, h3⟩
             · exact ⟨.inr ⟨rfl, h4⟩, h2, h3⟩
           · exact absurd h1.1 (by simp)
-        exact r3.inj j c1 j' c2 (conv _ _ hv1) (conv _ _ hv2)
+        exact r3.disj j c1 j' c2 (conv _ _ hv1) (conv _ _ hv2)
     by_cases hrid : c.row.rowId = []
     · simp only [hrid, List.isEmpty_nil, if_true]
       wp_simp
-      refine ⟨M', ?_⟩
+      refine ⟨M3, ?_⟩
       have := hfinal s3.rowIds st1.ids (([], s.nodes.size) :: s3.names) r3.ids
         (fun p hp => by have := r3.idok p hp; exact ⟨by omega, this.2⟩)
       rw [← hst]
       simpa [toRRow, hrid, r3.stack] using this
     · simp only [List.isEmpty_iff, hrid, if_false]
       wp_simp
-      refine ⟨M', ?_⟩
+      refine ⟨M3, ?_⟩
       have := hfinal ((c.row.rowId, s3.groups.size) :: s3.rowIds) ((c.row.rowId, k) :: st1.ids)
         (([], s.nodes.size) :: s3.names) (by simp [r3.ids, hsz])
         (fun p hp => by
@@ -483,7 +533,7 @@ theorem kindOf_goto : kindOf "go_to".toList = .goTo := by decide
 theorem exit_row_sim (rows : List CRow) (outF : List OutEdge) (g : Good rows outF) (M : Maps) (k : Nat) (c : CRow)
     (hc : rows[k]? = some c) (hf : exitRow c = true) (s : St) (st st' : P1) (h : Rel rows M false k s st)
     (hst : pass1Row st k (toRRow c) = .ok st') (hpre : st'.out.reverse <+: outF) :
-    wp (step (toEvent c)) s (fun _ s' => Rel rows M false (k + 1) s' st') := by
+    wp (step (toEvent c)) s (fun _ s' => ∃ M', Rel rows M' false (k + 1) s' st') := by
   simp only [exitRow, Bool.and_eq_true, Bool.or_eq_true, decide_eq_true_eq] at hf
   obtain ⟨ht, _⟩ := hf
   have hkind : kindOf c.row.type = .hardExit ∨ kindOf c.row.type = .looseExit := by
@@ -511,33 +561,33 @@ theorem exit_row_sim (rows : List CRow) (outF : List OutEdge) (g : Good rows out
     · exact .inl rfl
     · exact .inr rfl
   refine wp_mono (edges_sim rows outF g M false k _ Target.exit _ s st st' h hd (fun t ht => by cases ht) hst2 hpre) ?_
-  intro _ s' ⟨r, _⟩
-  exact r.skip hc hnn
+  intro _ s' ⟨M', _, r, _⟩
+  exact ⟨M', r.skip hc hnn⟩
 
 theorem wp_lookupRow (id : Str) (s : St) (Q : Option Nat → St → Prop) :
     wp (lookupRow id) s Q ↔ Q ((s.rowIds.find? (·.1 = id)).map (·.2)) s := by
   unfold lookupRow; wp_simp
 
 /-- the edges of a `go_to` row, each with its destination -/
-theorem goto_edges_sim (rows : List CRow) (outF : List OutEdge) (g : Good rows outF) (M : Maps) (k : Nat) :
-    ∀ (es : List Compile.Edge) (ds : List Str) (tgts : List Target) (s : St) (st st' : P1),
+theorem goto_edges_sim (rows : List CRow) (outF : List OutEdge) (g : Good rows outF) (k : Nat) :
+    ∀ (es : List Compile.Edge) (M : Maps) (ds : List Str) (tgts : List Target) (s : St) (st st' : P1),
       Rel rows M false k s st → ds.length = es.length →
       ds.mapM (fun d => match lookupId st.ids d with
         | some t => (pure (Target.row t) : Except WfErr Target)
         | none => throw (WfErr.unknownDest k d)) = .ok tgts →
       addEdges st k ((es.map toREdge).zip tgts) = .ok st' →
       st'.out.reverse <+: outF →
-      wp ((es.zip ds).forM gotoEdge) s (fun _ s' => Rel rows M false k s' st') := by
+      wp ((es.zip ds).forM gotoEdge) s (fun _ s' => ∃ M', Rel rows M' false k s' st') := by
   intro es
   induction es with
   | nil =>
-    intro ds tgts s st st' h _ _ hst _
+    intro M ds tgts s st st' h _ _ hst _
     simp only [List.map_nil, List.zip_nil_left] at hst ⊢
     rw [addEdges_nil] at hst
     injection hst with hst; subst hst
-    rw [wp_forM_nil]; exact h
+    rw [wp_forM_nil]; exact ⟨M, h⟩
   | cons e es ih =>
-    intro ds tgts s st st' h hlen hm hst hpre
+    intro M ds tgts s st st' h hlen hm hst hpre
     cases ds with
     | nil => simp at hlen
     | cons dd ds =>
@@ -571,7 +621,7 @@ theorem goto_edges_sim (rows : List CRow) (outF : List OutEdge) (g : Good rows o
             obtain ⟨htk, ct, hct, hnt⟩ := hidok
             have hgrp := h.grp t ct htk hct hnt
             obtain ⟨nt, hnt', _⟩ := h.node t ct ⟨.inl htk, hct, hnt⟩
-            have step1 : wp (gotoEdge (e, dd)) s (fun _ s1 => Rel rows M false k s1 st1) := by
+            have step1 : wp (gotoEdge (e, dd)) s (fun _ s1 => ∃ M1, Rel rows M1 false k s1 st1) := by
               unfold gotoEdge
               wp_simp [wp_lookupRow]
               rw [h.ids, lookup_ids, hl]
@@ -589,17 +639,17 @@ theorem goto_edges_sim (rows : List CRow) (outF : List OutEdge) (g : Good rows o
               rw [hnt'] at hn'; injection hn' with hn'; subst hn'
               exact wp_mono (edge_sim rows outF g M false k (.node nt.uid) (Target.row t) e s st st1 h
                 ⟨nt, hnt', rfl⟩ (fun t' ht' => by injection ht' with ht'; exact .inl (ht' ▸ htk)) h1 hpre1)
-                (fun _ _ hh => hh.1)
+                (fun _ _ ⟨M1, _, r1, _⟩ => ⟨M1, r1⟩)
             refine wp_mono step1 ?_
-            intro _ s1 r1
+            intro _ s1 ⟨M1, r1⟩
             have hids : st1.ids = st.ids := (edgeStep_prefix h1).2.1
-            exact ih ds tg2 s1 st1 st' r1 (by simpa using hlen) (by rw [hids]; exact hm2) hst hpre
+            exact ih M1 ds tg2 s1 st1 st' r1 (by simpa using hlen) (by rw [hids]; exact hm2) hst hpre
 
 /-- a `go_to` row -/
 theorem goto_row_sim (rows : List CRow) (outF : List OutEdge) (g : Good rows outF) (M : Maps) (k : Nat) (c : CRow)
     (hc : rows[k]? = some c) (hf : gotoRow c = true) (s : St) (st st' : P1) (h : Rel rows M false k s st)
     (hst : pass1Row st k (toRRow c) = .ok st') (hpre : st'.out.reverse <+: outF) :
-    wp (step (toEvent c)) s (fun _ s' => Rel rows M false (k + 1) s' st') := by
+    wp (step (toEvent c)) s (fun _ s' => ∃ M', Rel rows M' false (k + 1) s' st') := by
   simp only [gotoRow, Bool.and_eq_true, decide_eq_true_eq] at hf
   obtain ⟨ht, _⟩ := hf
   have hkind : kindOf c.row.type = .goTo := by rw [ht]; exact kindOf_goto
@@ -627,9 +677,9 @@ theorem goto_row_sim (rows : List CRow) (outF : List OutEdge) (g : Good rows out
     split at hst
     · cases hst
     · rename_i tgts hm
-      refine wp_mono (goto_edges_sim rows outF g M k _ ds tgts s st st' h hlen hm hst hpre) ?_
-      intro _ s' r
-      exact r.skip hc hnn
+      refine wp_mono (goto_edges_sim rows outF g k _ M ds tgts s st st' h hlen hm hst hpre) ?_
+      intro _ s' ⟨M', r⟩
+      exact ⟨M', r.skip hc hnn⟩
   · simp only [hlen, ne_eq, not_false_eq_true, if_true]
     wp_simp
 
@@ -641,7 +691,7 @@ theorem row_sim (rows : List CRow) (outF : List OutEdge) (g : Good rows outF) (M
   simp only [rowOk, Bool.or_eq_true] at hf
   rcases hf with (hf | hf) | hf
   · exact node_row_sim rows outF g M k c hc hf s st st' h hst hpre
-  · exact wp_mono (exit_row_sim rows outF g M k c hc hf s st st' h hst hpre) (fun _ s' r => ⟨M, r⟩)
-  · exact wp_mono (goto_row_sim rows outF g M k c hc hf s st st' h hst hpre) (fun _ s' r => ⟨M, r⟩)
+  · exact exit_row_sim rows outF g M k c hc hf s st st' h hst hpre
+  · exact goto_row_sim rows outF g M k c hc hf s st st' h hst hpre
 
 end Rpft.CoreSheet
